@@ -26,6 +26,11 @@ def merge_jobs(tier):
              "unwind": 120, "reset_mode": True} for k, kn in ((1, "counter"), (0, "register"))]
 
 
+def ensure_jobs(tier):
+    return [{"id": f"O3.ensure-context-txn.kind{k}", "func": "VerifH_C05_EnsureTxn", "conf": {"ctxkind": k, "dag": "", "orders": "all", "shortid": 0},
+             "_obligation": "O3", "_covers": ["ensured"], "unwind": 40} for k in (0, 1, 2, 3)]
+
+
 def seq_jobs(tier):
     return [{"id": "O1.sequence", "func": "VerifH_C14_FaultPropagation", "conf": {}, "_obligation": "O1+O2", "_covers": ["ran"]}]
 
@@ -42,6 +47,7 @@ PROPERTY = {
         {"name": "block", "pkg": "internal/core/block", "files": ["zz_verif_block.go"], "common": ["intrinsics", "kvmodel"],
          "jobs": head_jobs, "overrides": OVR, "unwind": 30},
         dict(_c02.SUITE, name="merge", jobs=merge_jobs),
+        dict(_c02.SUITE, name="ensuretxn", jobs=ensure_jobs, files=["zz_verif_env.go", "zz_verif_merge.go", "zz_verif_c05txn.go"]),
         {"name": "sequence", "pkg": "internal/db/sequence", "files": ["zz_verif_c14.go"], "common": ["intrinsics", "kvmodel"], "jobs": seq_jobs},
         {"name": "txn", "pkg": "internal/datastore", "files": ["zz_verif_txn.go"], "common": ["intrinsics", "kvmodel"], "jobs": txn_jobs},
     ],
